@@ -1122,6 +1122,8 @@ class Verifier(QuantMixin, LoopMixin, ExprMixin, CallMixin, StmtMixin, BuiltinsM
         self.assume(z3.And(Val.is_ref(v), Val.r(v) >= 0, Val.r(v) < smt.FRESH_BASE, smt.cls_of(Val.r(v)) == c.cid))
         self.use_class(c)
         self.known_cls[smt.simp(v).get_id()] = c
+        self.old_terms.add(smt.simp(v).get_id())
+        self.bounded.add(smt.simp(v).get_id())
         return v
 
     def verify_function(self, fi: FuncInfo, ct: Contract, max_paths: int = MAX_PATHS) -> FuncResult:
@@ -1223,12 +1225,25 @@ class Verifier(QuantMixin, LoopMixin, ExprMixin, CallMixin, StmtMixin, BuiltinsM
         real function is run on it; the native outcome class must be the one predicted here."""
         from .replay import replay
         key = (outcome, tuple(self.decisions[:self.pos]))
+        # lazily instantiated universal facts: make the model respect them on the first few positions
+        for k in list(self.q_facts):
+            sq = self.q_seqs.get(k)
+            if sq is not None:
+                for i in range(3):
+                    self.note_index(sq, z3.IntVal(i))
         s = self._sync_solver()
         if s.check() != z3.sat:
             return
         rep = replay(self, fi, ct, s.model(), self.path_info())
         rec = {'predicted': outcome, 'native': rep.get('outcome'), 'status': rep.get('status'),
                'inputs': rep.get('inputs'), 'detail': rep.get('detail')}
+        if rec['predicted'] != rec['native'] and rec['status'] not in ('unrealisable',):
+            # a path whose condition depends on an UNINTERPRETED spec predicate (assumed semantics, e.g. the duplicate
+            # check) has models no concrete input realises: not a disagreement between engine and CPython
+            s_model = s.model()
+            if any(d.name().startswith(('uf_dup_in', 'uf_binds', 'uf_exc_listed')) for d in s_model.decls()):
+                rec['status'] = 'unrealisable'
+                rec['detail'] = 'path condition depends on an uninterpreted (assumed) spec predicate'
         self.cross.append(rec)
 
     def check_return(self, fi: FuncInfo, ct: Contract, vals: Dict[str, Any], result) -> None:
